@@ -285,6 +285,21 @@ claim('C12',
       'Perron-Frobenius, not done by z3.  Disconnected networks are outside.  Floats as reals.',
       'DESIGN.md 3/C12')
 
+claim('C24',
+      'Bounded symbolic verification on enumerated crystals / networks / shell numbers: for a pair state whose lattice vector is a '
+      'SYMBOLIC integer vector (|R_k| <= 1000) and whose two site indices are case-split, z3 decides (QF_LIA) that membership in '
+      'StarSet.states is equivalent to being reachable by 1..N jumps (independent breadth-first composition of the network in lattice '
+      'form; origin states when requested) - for every R, so no state is missing and none is foreign; that the real PairState.g '
+      'applied to the symbolic state stays in the same star for every space-group operation; and that for two symbolic member states '
+      'with the same solute site the endpoint difference is a member of the difference star set (diffgenerate) and equals the real '
+      '`^`. On the same run, as replayable constant obligations: the stars partition the states, every star is one orbit, '
+      'stateindex / starindex / index / `in` are consistent (every member and a far non-member), and StarSet(N1) + StarSet(N2) '
+      'equals StarSet(N1+N2) in states and stars for every split.',
+      'The crystal and the network carry no continuous input: the solver content is the unbounded lattice vector of the queried '
+      'state; the reference sets are finite. Index look-ups go through a hash dictionary and are exercised on concrete states only. '
+      'N <= 2 (quick), <= 3 (thorough); 9 / 15 crystals.',
+      'DESIGN.md 3/C24')
+
 na('C01', 'exact oracle is an infinite-state pair Markov chain reached through Brillouin-zone quadrature, LAPACK and hyp1f1/expi; '
           'agreement only to integration accuracy: no algebraic statement a solver can decide (DESIGN 5)')
 na('C06', 'identities hold only for the true lattice Green function of the omega0 network (numerical k-space integration); '
@@ -296,8 +311,6 @@ na('C09', 'compares two different concrete crystals through the numerical Green 
 na('C10', 'numerical inverse Fourier transform + special functions; an accuracy statement, not an algebraic identity (DESIGN 5)')
 na('C19', 'inputs are integer supercell matrices and atom lists whose length depends on them; reduce/minlattice are data-dependent '
           'recursive searches: making the matrix symbolic degenerates to enumeration of concrete crystals (DESIGN 5)')
-na('C24', 'only input is a concrete crystal/network and a small integer; outputs are finite sets: deciding it is enumeration of '
-          'concrete runs, which this technique family excludes (substrate covered by C23/C36) (DESIGN 5)')
 na('C26', 'as C24: concrete crystal + small integers only, nothing continuous or unbounded to quantify over (DESIGN 5)')
 na('C27', 'as C24: concrete supercells and occupations only; equivalence search is a finite enumeration (DESIGN 5)')
 na('C29', 'as C24: concrete crystal, network and supercell size; outputs are finite dictionaries of supercells (DESIGN 5)')
